@@ -19,6 +19,7 @@ class HeapProfile(Profile):
     check_bc = True
     real_components = REAL
     stub_components = STUBS_HEAP
+    state_measure = "final pool: multiset of handle kinds x sizes of the groups of handles sharing one mesh object x dimension counts"
     assumptions = [
         "sharing policy P1-P3 of DESIGN 5.2: in-place calls only on pool handles through their own public methods",
         "inputs stay at a decision margin from rounding-sensitive boundaries (DESIGN S2)",
@@ -70,9 +71,13 @@ class HeapProfile(Profile):
                 out.append(dict(o, units=None))
             if o.get("dims") is not None and o["dims"] in (["x"], ["x", "y"], ["x", "y", "z"]):
                 out.append(dict(o, dims=None))
+            if o.get("intcorners"):
+                out.append({k: v for k, v in o.items() if k not in ("intcorners", "intsubs")})
         if o["op"] == "Region.new":
             if o.get("units") is not None:
                 out.append(dict(o, units=None))
+            if o.get("intcorners"):
+                out.append({k: v for k, v in o.items() if k != "intcorners"})
         if o["op"] == "Field.new":
             if o.get("valid"):
                 out.append(dict(o, valid=None))
@@ -100,7 +105,7 @@ class TransformProfile(HeapProfile):
         "oracle evaluation (invariants after a step, whole-heap refinement, in-place==copy, rejection atomicity)"
     )
 
-    def draw_config(self, rng):
+    def _draw_config(self, rng):
         ndim = rng.choice([1, 2, 2, 3, 3, 3, 4])
         return {
             "ndim": ndim,
@@ -153,6 +158,12 @@ class TransformProfile(HeapProfile):
 
             s = rng.choice(fields)
             return {"op": "F.call", "on": s, "pts": draw_points(rng, st.h[s].box.v, rng.randint(1, 3)), "tuple": rng.random() < 0.3}
+        if fields and rng.random() < 0.05:
+            s = rng.choice(fields)
+            nv = st.h[s].fm.nvdim
+            if nv > 1:
+                pool = {2: [["p", "q"], ["y", "x"], ["mx", "my"]], 3: [["y", "x", "z"], ["mx", "my", "mz"], ["p", "q", "r"]], 4: [["p", "q", "r", "s"]]}[nv]
+                return {"op": "F.rename", "on": s, "vdims": rng.choice(pool)}
         cands = [s for s in st.h if st.h[s].kind in kinds]
         if not cands:
             cands = list(st.h)
@@ -210,8 +221,8 @@ class RotateProfile(TransformProfile):
         "outcome); non-trivial = at least 2 steps and at least one history/aliasing/fault oracle evaluation"
     )
 
-    def draw_config(self, rng):
-        cfg = super().draw_config(rng)
+    def _draw_config(self, rng):
+        cfg = super()._draw_config(rng)
         cfg["ndim"] = rng.choice([2, 2, 3, 3, 3, 4])
         cfg["steps"] = rng.randint(3, 25)
         cfg["methods"] = ["rotate90"]
